@@ -16,6 +16,8 @@
 //!                  a cancelled write is an op without response the search may place later or omit.
 //!   conn_clients   the same programs through concurrent connection handlers (hook) sharing one
 //!                  ShardedActorState; each client talks over an in-memory duplex stream
+//!   seq_ttl        one client, TTL-bearing commands and forward-only clock steps aimed at deadlines on
+//!                  1/2/4/16 shards; every reply must equal the sequential model with a deadline per key
 //!   stress         (thorough) 8–16 clients on a multi-thread runtime; the replay artefact is the
 //!                  recorded history (check `checker_hand`)
 
@@ -41,6 +43,7 @@ use vcore::{CaseCtx, Level, Session};
 type State = ShardedActorState<VerifTime>;
 
 const KF_HASH: &str = "KF-C02-01";
+const KF_STALE: &str = "KF-C02-02";
 const SEARCH_BUDGET: usize = 400_000;
 
 // ---------------------------------------------------------------------------------------
@@ -942,6 +945,324 @@ fn case_strategy(clients: std::ops::RangeInclusive<usize>, ops: std::ops::RangeI
         .boxed()
 }
 
+
+// ---------------------------------------------------------------------------------------
+// seq_ttl: one client, TTL-bearing commands, a harness clock that only moves forward
+// ---------------------------------------------------------------------------------------
+//
+// Concurrent histories with expiry cannot be judged soundly here: the time a command runs at is
+// sampled in the client task before the message is queued, `set_time` is an assignment (a later
+// message may carry an earlier time), and the fast paths carry no time at all. What can be
+// judged exactly is the sequential case: one client, every reply must be the one the sequential
+// model gives at the harness clock value. A violation is a "sequential witness" (e.g. EXISTS 0,
+// then DEL 1 with no write in between): no total order of the commands explains it, for any
+// number of clients.
+
+#[derive(Clone, Copy, Debug, PartialEq, Eq, Hash, Serialize, Deserialize)]
+enum TKind {
+    Get(Path),
+    Set(Path),
+    SetPx,
+    PExpire,
+    Persist,
+    Pttl,
+    Ttl,
+    Exists,
+    Del,
+    Incr,
+    Append,
+    SetNx,
+    MSetNx,
+    EvalDel,
+}
+
+#[derive(Clone, Debug, Serialize, Deserialize)]
+enum TStep {
+    Op { kind: TKind, key: u8, ms: u16, numeric: bool },
+    /// advance the harness clock; `tick` = the TTL manager runs (evict_expired_all_shards)
+    Clock { ms: u64, tick: bool },
+}
+
+#[derive(Clone, Debug, Serialize, Deserialize)]
+struct TtlCase {
+    shards: usize,
+    pool: (usize, usize),
+    keys: Vec<Vec<u8>>,
+    steps: Vec<TStep>,
+}
+
+const DEL_SCRIPT: &[u8] = b"return redis.call('DEL', KEYS[1])";
+
+fn show_tstep(keys: &[Vec<u8>], i: usize, st: &TStep) -> String {
+    match st {
+        TStep::Clock { ms, tick } => format!("clock += {} ms{}", ms, if *tick { " + TTL tick" } else { "" }),
+        TStep::Op { kind, key, ms, .. } => {
+            let k = vcore::show(&keys[key_index(*key, keys.len())]);
+            match kind {
+                TKind::Get(p) => format!("GET {} [{:?}]", k, p),
+                TKind::Set(p) => format!("SET {} t{} [{:?}]", k, i, p),
+                TKind::SetPx => format!("SET {} t{} PX {}", k, i, ms),
+                TKind::PExpire => format!("PEXPIRE {} {}", k, ms),
+                TKind::Persist => format!("PERSIST {}", k),
+                TKind::Pttl => format!("PTTL {}", k),
+                TKind::Ttl => format!("TTL {}", k),
+                TKind::Exists => format!("EXISTS {}", k),
+                TKind::Del => format!("DEL {}", k),
+                TKind::Incr => format!("INCR {}", k),
+                TKind::Append => format!("APPEND {} +a{}", k, i),
+                TKind::SetNx => format!("SETNX {} t{}", k, i),
+                TKind::MSetNx => format!("MSETNX {} t{}", k, i),
+                TKind::EvalDel => format!("EVAL \"return redis.call('DEL', KEYS[1])\" 1 {}", k),
+            }
+        }
+    }
+}
+
+fn check_ttl(case: &TtlCase, ctx: &mut CaseCtx<'_>) -> Result<(), String> {
+    if case.keys.is_empty() || case.shards == 0 || case.shards > 256 {
+        return Ok(());
+    }
+    vcore::block_on(run_ttl(case, ctx))
+}
+
+async fn run_ttl(case: &TtlCase, ctx: &mut CaseCtx<'_>) -> Result<(), String> {
+    let time = VerifTime::new(0);
+    let st = mk_state(case.shards, case.pool, &time);
+    let keys = &case.keys;
+    let nk = keys.len();
+    // sequential model: value and optional deadline (harness clock, ms) per key
+    let mut model: Vec<Option<(Vec<u8>, Option<u64>)>> = vec![None; nk];
+    let mut now = 0u64;
+    let mut stale = false;
+    let mut observed_expiry = false;
+    let kf_stale_open = ctx.finding_open(KF_STALE);
+    let program = |upto: usize| {
+        let from = upto.saturating_sub(16);
+        let mut s = String::new();
+        for (i, t) in case.steps.iter().enumerate().take(upto + 1).skip(from) {
+            s.push_str(&format!("      #{:<3} {}\n", i, show_tstep(keys, i, t)));
+        }
+        s
+    };
+    for (i, step) in case.steps.iter().enumerate() {
+        let (kind, key, ms, numeric) = match step {
+            TStep::Clock { ms, tick } => {
+                now = time.advance(*ms);
+                if *tick {
+                    st.evict_expired_all_shards().await;
+                    stale = false;
+                } else if *ms > 0 {
+                    stale = true;
+                }
+                continue;
+            }
+            TStep::Op { kind, key, ms, numeric } => (*kind, key_index(*key, nk), (*ms).max(1) as u64, *numeric),
+        };
+        let k = &keys[key];
+        // lazily drop what has expired in the model
+        if let Some((_, Some(d))) = &model[key] {
+            if *d <= now {
+                model[key] = None;
+                observed_expiry = true;
+            }
+        }
+        let val: Vec<u8> = if numeric { ((i + 1) * 1000).to_string().into_bytes() } else { format!("t{}", i).into_bytes() };
+        let kb = Bytes::copy_from_slice(k);
+        let int = |n: i64| Reply::Int(n);
+        // expected reply + model update
+        let (expect, got): (Reply, Reply) = match kind {
+            TKind::Get(mut path) => {
+                // KF-C02-02 (= KF-C01-14 / KF-C03-05): fast-family reads do not refresh the
+                // shard clock; while a clock step without TTL tick is pending they may serve an
+                // expired key. Excluded by construction while open (generic entry), counted.
+                if path != Path::Generic && stale && kf_stale_open && ctx.tolerate(KF_STALE) {
+                    path = Path::Generic;
+                }
+                let e = match &model[key] {
+                    Some((v, _)) => Reply::Bulk(v.clone()),
+                    None => Reply::Nil,
+                };
+                let g = match path {
+                    Path::Generic => exec_generic(&st, &a(&[b"GET", k])).await,
+                    Path::Fast => Reply::from_resp(&st.fast_get(kb).await),
+                    Path::Pooled => Reply::from_resp(&st.pooled_fast_get(kb).await),
+                    Path::Batch => one(st.fast_batch_get_pipeline(vec![kb]).await)?,
+                };
+                (e, g)
+            }
+            TKind::Set(path) => {
+                model[key] = Some((val.clone(), None));
+                let vb = Bytes::copy_from_slice(&val);
+                let g = match path {
+                    Path::Generic => exec_generic(&st, &a(&[b"SET", k, &val])).await,
+                    Path::Fast => Reply::from_resp(&st.fast_set(kb, vb).await),
+                    Path::Pooled => Reply::from_resp(&st.pooled_fast_set(kb, vb).await),
+                    Path::Batch => one(st.fast_batch_set_pipeline(vec![(kb, vb)]).await)?,
+                };
+                (Reply::ok(), g)
+            }
+            TKind::SetPx => {
+                model[key] = Some((val.clone(), Some(now + ms)));
+                (Reply::ok(), exec_generic(&st, &a(&[b"SET", k, &val, b"PX", ms.to_string().as_bytes()])).await)
+            }
+            TKind::PExpire => {
+                let e = match &mut model[key] {
+                    Some((_, d)) => {
+                        *d = Some(now + ms);
+                        int(1)
+                    }
+                    None => int(0),
+                };
+                (e, exec_generic(&st, &a(&[b"PEXPIRE", k, ms.to_string().as_bytes()])).await)
+            }
+            TKind::Persist => {
+                let e = match &mut model[key] {
+                    Some((_, d)) if d.is_some() => {
+                        *d = None;
+                        int(1)
+                    }
+                    _ => int(0),
+                };
+                (e, exec_generic(&st, &a(&[b"PERSIST", k])).await)
+            }
+            TKind::Pttl | TKind::Ttl => {
+                let e = match &model[key] {
+                    None => int(-2),
+                    Some((_, None)) => int(-1),
+                    Some((_, Some(d))) => {
+                        let rem = (*d - now) as i64;
+                        if kind == TKind::Pttl { int(rem) } else { int((rem + 500) / 1000) }
+                    }
+                };
+                let name: &[u8] = if kind == TKind::Pttl { b"PTTL" } else { b"TTL" };
+                (e, exec_generic(&st, &a(&[name, k])).await)
+            }
+            TKind::Exists => (int(model[key].is_some() as i64), exec_generic(&st, &a(&[b"EXISTS", k])).await),
+            TKind::Del | TKind::EvalDel => {
+                let e = int(model[key].is_some() as i64);
+                model[key] = None;
+                let g = if kind == TKind::Del {
+                    exec_generic(&st, &a(&[b"DEL", k])).await
+                } else {
+                    exec_generic(&st, &a(&[b"EVAL", DEL_SCRIPT, b"1", k])).await
+                };
+                (e, g)
+            }
+            TKind::Incr => {
+                let (r, next) = spec(&model[key].as_ref().map(|(v, _)| v.clone()), &MOp::Incr);
+                let d = model[key].as_ref().and_then(|(_, d)| *d);
+                model[key] = next.map(|v| (v, d));
+                (r, exec_generic(&st, &a(&[b"INCR", k])).await)
+            }
+            TKind::Append => {
+                let suffix = format!("+a{}", i).into_bytes();
+                let (r, next) = spec(&model[key].as_ref().map(|(v, _)| v.clone()), &MOp::Append(suffix.clone()));
+                let d = model[key].as_ref().and_then(|(_, d)| *d);
+                model[key] = next.map(|v| (v, d));
+                (r, exec_generic(&st, &a(&[b"APPEND", k, &suffix])).await)
+            }
+            TKind::SetNx | TKind::MSetNx => {
+                let e = if model[key].is_some() {
+                    int(0)
+                } else {
+                    model[key] = Some((val.clone(), None));
+                    int(1)
+                };
+                let name: &[u8] = if kind == TKind::SetNx { b"SETNX" } else { b"MSETNX" };
+                (e, exec_generic(&st, &a(&[name, k, &val])).await)
+            }
+        };
+        let same = match (&expect, &got) {
+            (Reply::Error(_), Reply::Error(_)) => expect.error_code() == got.error_code(),
+            _ => expect == got,
+        };
+        if !same {
+            return Err(format!(
+                "{} shard(s), response pool {:?}, one client, harness clock {} ms: step #{} {} replied {} but the sequential model (value + deadline per key) gives {} — no order of these commands explains the reply\n    program:\n{}",
+                case.shards, case.pool, now, i, show_tstep(keys, i, step), got.show(), expect.show(), program(i)
+            ));
+        }
+    }
+    ctx.label(&format!("n={}", case.shards));
+    if observed_expiry {
+        ctx.label("command_after_elapsed_ttl");
+        ctx.nontrivial(&serde_json::to_string(case).unwrap_or_default());
+    }
+    Ok(())
+}
+
+fn ttl_case() -> BoxedStrategy<TtlCase> {
+    let names = key_names().clone();
+    let keys = proptest::collection::vec(any::<u16>(), 1..=3).prop_map(move |sel| {
+        let mut out: Vec<Vec<u8>> = Vec::new();
+        for s in sel {
+            let k = names[(s as usize * names.len()) >> 16].clone();
+            if !out.contains(&k) {
+                out.push(k);
+            }
+        }
+        out
+    });
+    let path = || prop_oneof![3 => Just(Path::Generic), 2 => Just(Path::Fast), 2 => Just(Path::Pooled), 2 => Just(Path::Batch)];
+    let kind = move || {
+        prop_oneof![
+            6 => path().prop_map(TKind::Get),
+            4 => path().prop_map(TKind::Set),
+            4 => Just(TKind::SetPx),
+            3 => Just(TKind::PExpire),
+            2 => Just(TKind::Persist),
+            3 => Just(TKind::Pttl),
+            1 => Just(TKind::Ttl),
+            3 => Just(TKind::Exists),
+            3 => Just(TKind::Del),
+            2 => Just(TKind::Incr),
+            1 => Just(TKind::Append),
+            2 => Just(TKind::SetNx),
+            1 => Just(TKind::MSetNx),
+            1 => Just(TKind::EvalDel),
+        ]
+    };
+    let op = move || (kind(), any::<u8>(), 1u16..60, any::<bool>()).prop_map(|(kind, key, ms, numeric)| TStep::Op { kind, key, ms, numeric });
+    let clock = prop_oneof![3 => 0u64..5, 3 => 1u64..70, 1 => 500u64..2500].prop_flat_map(|ms| any::<bool>().prop_map(move |tick| TStep::Clock { ms, tick }));
+    // aimed: arm a deadline, step the clock to deadline-1 / deadline / deadline+1 (tick or not),
+    // then look at the key and try to remove or recreate it
+    let aimed = (any::<u8>(), 1u16..60, 0u8..3, any::<bool>(), any::<bool>(), proptest::collection::vec(kind(), 2..5)).prop_map(
+        |(key, ms, rel, by_pexpire, tick, after)| {
+            let mut v = Vec::new();
+            if by_pexpire {
+                v.push(TStep::Op { kind: TKind::Set(Path::Generic), key, ms, numeric: false });
+                v.push(TStep::Op { kind: TKind::PExpire, key, ms, numeric: false });
+            } else {
+                v.push(TStep::Op { kind: TKind::SetPx, key, ms, numeric: false });
+            }
+            let step = match rel {
+                0 => ms as u64 - 1,
+                1 => ms as u64,
+                _ => ms as u64 + 1,
+            };
+            v.push(TStep::Clock { ms: step, tick });
+            for k in after {
+                v.push(TStep::Op { kind: k, key, ms, numeric: false });
+            }
+            v
+        },
+    );
+    let group = prop_oneof![
+        8 => op().prop_map(|s| vec![s]),
+        2 => clock.prop_map(|s| vec![s]),
+        2 => aimed,
+    ];
+    let pool = prop_oneof![2 => Just((256usize, 64usize)), 1 => Just((1usize, 1usize)), 1 => Just((2usize, 1usize))];
+    (
+        prop_oneof![Just(1usize), Just(2usize), Just(4usize), Just(16usize)],
+        pool,
+        keys,
+        proptest::collection::vec(group, 1..14),
+    )
+        .prop_map(|(shards, pool, keys, groups)| TtlCase { shards, pool, keys, steps: groups.into_iter().flatten().collect() })
+        .boxed()
+}
+
 // ---------------------------------------------------------------------------------------
 // the checker's own tests
 // ---------------------------------------------------------------------------------------
@@ -1291,6 +1612,25 @@ fn main() {
         },
     );
 
+    // ---- fast-family reads with a stale shard clock (same root cause as KF-C01-14 / KF-C03-05)
+    s.probe(
+        KF_STALE,
+        json!({"shards": 1, "steps": ["SET k0 t0 PX 10", "clock += 20 ms (no TTL tick)", "fast_get k0"]}),
+        || {
+            let case = TtlCase {
+                shards: 1,
+                pool: (256, 64),
+                keys: vec![b"k0".to_vec()],
+                steps: vec![
+                    TStep::Op { kind: TKind::SetPx, key: 0, ms: 10, numeric: false },
+                    TStep::Clock { ms: 20, tick: false },
+                    TStep::Op { kind: TKind::Get(Path::Fast), key: 0, ms: 1, numeric: false },
+                ],
+            };
+            s.strict_eval(|ctx| check_ttl(&case, ctx)).err()
+        },
+    );
+
     // ---- the checker itself
     s.describe_check("checker_hand", "hand-written histories with known verdicts; replay target for histories recorded by the stress tier");
     s.run_enumerated("checker_hand", hand_histories().into_iter(), |c: &HistCase, ctx| {
@@ -1344,6 +1684,11 @@ fn main() {
         || case_strategy(2..=5, 1..=20, vec![1usize, 4, 16]),
         |c, ctx| check_case(c, Mode::Conn, &s, ctx),
     );
+    s.describe_check(
+        "seq_ttl",
+        "one client, TTL-bearing commands (SET PX, PEXPIRE, PERSIST, TTL/PTTL, EXISTS, DEL, SETNX, MSETNX, INCR, APPEND, Lua DEL; GET/SET through every entry path) and forward-only clock steps aimed at deadlines (tick or no tick) on 1/2/4/16 shards: every reply equals the sequential model's",
+    );
+    s.run_cases("seq_ttl", s.scale(20_000, 600_000), ttl_case, check_ttl);
     if s.thorough() || s.is_replay() {
         s.describe_check("stress", "8-16 clients on a 4-worker multi-thread runtime; a violating history is saved for replay through checker_hand");
         s.run_cases(
